@@ -213,7 +213,13 @@ func c19GenRandom(r *Rng) c19Scn {
 			g.add(c19Step{Op: "du", Name: g.pickUsage()})
 		case w < 88:
 			g.deleteRes()
-		case w < 93:
+		case w < 90:
+			if len(g.xrs) > 0 {
+				g.add(c19Step{Op: "xa", Name: g.pickUsage(), Ctrl: Pick(r, g.xrs)})
+			} else {
+				g.deleteRes()
+			}
+		case w < 94:
 			if r.Bool() {
 				g.add(c19Step{Op: "gc", Kind: v1beta1.UsageKind, Name: g.pickUsage()})
 			} else {
@@ -345,11 +351,98 @@ func c19GenFaultSweep(r *Rng) c19Scn {
 		steps = append(steps, c19Step{Op: "step", U: "u0", O: oc})
 	}
 	steps = append(steps, c19Step{Op: "dr", AV: Pick(r, c19Versions(used.AV)), Kind: used.Kind, Name: used.Name, Policy: Pick(r, []string{"", "Background"})})
-	steps = append(steps, c19Step{Op: "run", U: "u0"}, c19Step{Op: "dr", AV: used.AV, Kind: used.Kind, Name: used.Name})
+	steps = append(steps, c19Step{Op: "run", U: "u0"}, c19Step{Op: "xa", Name: "u0", Ctrl: "x0"}, c19Step{Op: "dr", AV: used.AV, Kind: used.Kind, Name: used.Name})
 	if r.Bool() {
 		steps = append(steps, c19Step{Op: "dr", AV: using.AV, Kind: using.Kind, Name: using.Name}, c19Step{Op: "gc", Kind: v1beta1.UsageKind, Name: "u0"}, c19Step{Op: "run", U: "u0"}, c19Step{Op: "dr", AV: used.AV, Kind: used.Kind, Name: used.Name})
 	}
 	return c19Scn{MaxC: 1, Steps: steps}
+}
+
+// c19AllMerges enumerates every interleaving of two event streams.
+func c19AllMerges(a, b []c19Step, emit func([]c19Step)) {
+	var rec func(i, j int, acc []c19Step)
+	rec = func(i, j int, acc []c19Step) {
+		if i == len(a) && j == len(b) {
+			emit(append([]c19Step{}, acc...))
+			return
+		}
+		if i < len(a) {
+			rec(i+1, j, append(acc, a[i]))
+		}
+		if j < len(b) {
+			rec(i, j+1, append(acc, b[j]))
+		}
+	}
+	rec(0, 0, nil)
+}
+
+// c19Exhaustive: (1) every interleaving, at API-call granularity, of the reconcile of a
+// deleted Usage with the creation + reconcile of a second Usage of the same resource
+// (by reference, other API version), for 1 and 2 workers; (2) every fault position and
+// outcome of one add-path and one delete-path reconcile.
+func c19Exhaustive(emit func(c19Scn, string)) {
+	used := c19ResID{"ex.org/v1", "Thing", "r0"}
+	prefix := []c19Step{
+		{Op: "cr", AV: used.AV, Kind: used.Kind, Name: used.Name, Labels: map[string]string{"app": "db"}},
+		{Op: "cu", Name: "u0", Of: &c19RSpec{AV: used.AV, Kind: used.Kind, Name: used.Name}, Reason: "a"},
+		{Op: "run", U: "u0"},
+		{Op: "du", Name: "u0"},
+	}
+	a := []c19Step{{Op: "start", U: "u0"}}
+	for i := 0; i < 5; i++ {
+		a = append(a, c19Step{Op: "step", U: "u0", O: "ok"})
+	}
+	b := []c19Step{{Op: "cu", Name: "u1", Of: &c19RSpec{AV: "ex.org/v1beta1", Kind: used.Kind, Name: used.Name}, Reason: "b"}, {Op: "start", U: "u1"}}
+	for i := 0; i < 6; i++ {
+		b = append(b, c19Step{Op: "step", U: "u1", O: "ok"})
+	}
+	suffix := []c19Step{
+		{Op: "dr", AV: "ex.org/v2", Kind: used.Kind, Name: used.Name, Policy: "Foreground"},
+		{Op: "run", U: "u1"}, {Op: "run", U: "u0"},
+		{Op: "dr", AV: used.AV, Kind: used.Kind, Name: used.Name},
+	}
+	for _, maxc := range []int{1, 2} {
+		c19AllMerges(a, b, func(m []c19Step) {
+			steps := append(append(append([]c19Step{}, prefix...), m...), suffix...)
+			emit(c19Scn{MaxC: maxc, Steps: steps}, "xmrg")
+		})
+	}
+	using := c19ResID{"ex.org/v1", "Other", "r1"}
+	for _, sel := range []bool{false, true} {
+		for _, del := range []bool{false, true} {
+			for k := 0; k < 10; k++ {
+				for _, o := range c19Outcomes[1:] {
+					of := &c19RSpec{AV: "ex.org/v1beta1", Kind: used.Kind, Name: used.Name}
+					by := &c19RSpec{AV: using.AV, Kind: using.Kind, Name: using.Name}
+					if sel {
+						of = &c19RSpec{AV: "ex.org/v1beta1", Kind: used.Kind, Sel: &c19Sel{Labels: map[string]string{"app": "db"}}}
+						by = &c19RSpec{AV: using.AV, Kind: using.Kind, Sel: &c19Sel{Labels: map[string]string{"app": "web"}}}
+					}
+					steps := []c19Step{
+						{Op: "cr", AV: used.AV, Kind: used.Kind, Name: used.Name, Labels: map[string]string{"app": "db"}},
+						{Op: "cr", AV: using.AV, Kind: using.Kind, Name: using.Name, Labels: map[string]string{"app": "web"}},
+						{Op: "cu", Name: "u0", Of: of, By: by, Composed: true},
+					}
+					if del {
+						steps = append(steps, c19Step{Op: "run", U: "u0"}, c19Step{Op: "du", Name: "u0"}, c19Step{Op: "dr", AV: using.AV, Kind: using.Kind, Name: using.Name})
+					}
+					steps = append(steps, c19Step{Op: "start", U: "u0"})
+					for i := 0; i < 11; i++ {
+						oc := "ok"
+						if i == k {
+							oc = o
+						}
+						steps = append(steps, c19Step{Op: "step", U: "u0", O: oc})
+					}
+					steps = append(steps,
+						c19Step{Op: "dr", AV: "ex.org/v2", Kind: used.Kind, Name: used.Name, Policy: "Background"},
+						c19Step{Op: "run", U: "u0"},
+						c19Step{Op: "dr", AV: used.AV, Kind: used.Kind, Name: used.Name})
+					emit(c19Scn{MaxC: 1, Steps: steps}, "xflt")
+				}
+			}
+		}
+	}
 }
 
 func c19Class(scn c19Scn, obs c19Obs, fam string) string {
@@ -383,6 +476,8 @@ func c19Class(scn c19Scn, obs c19Obs, fam string) string {
 			}
 		case "gc":
 			f["gc"] = true
+		case "xa":
+			f["xa"] = true
 		}
 	}
 	for _, n := range ofs {
@@ -435,6 +530,17 @@ func init() {
 				obs, mons := c19Run(s)
 				c.Emit(s, obs, mons, c19Class(s, obs, "corpus"))
 			}
+		}
+		if c.Tier == "thorough" {
+			// exhaustive small scopes, split over the shards (shard index = seed mod 1000)
+			shard, idx := int(c.Seed%1000), 0
+			c19Exhaustive(func(s c19Scn, fam string) {
+				if idx%8 == shard%8 {
+					obs, mons := c19Run(s)
+					c.Emit(s, obs, mons, c19Class(s, obs, fam))
+				}
+				idx++
+			})
 		}
 		for i := 0; i < c.N; i++ {
 			r := c.Rng.Fork()
